@@ -308,6 +308,9 @@ pub proof fn lemma_claims_set(s: Raw, a: Seq<char>, c: Seq<Claim>)
     r is Ok ==> step_bond(old(deps.storage).view(), final(deps.storage).view(), sender@, amount, env.block.height)
 @ensures C09.bond_inv C10
     r is Ok ==> inv(final(deps.storage).view())
+@ensures C14.bond_notifies_hooks
+    r is Ok ==> exists|amt: Uint128| #[trigger] accepted(config_of(old(deps.storage).view())->Some_0, amount, amt)
+        && membership_msgs_ok(old(deps.storage).view(), r->Ok_0.messages@, sender@, weight_u64(stake_of(old(deps.storage).view(), sender@) + amt@, config_of(old(deps.storage).view())->Some_0))
 @closure_types 1
     stake: Option<Uint128>
 @closure 1 C10.bond_stake_closure
@@ -333,6 +336,9 @@ pub proof fn lemma_claims_set(s: Raw, a: Seq<char>, c: Seq<Claim>)
         Balance::Cw20(Cw20CoinVerified { address: info.sender, amount: wrapper.amount }), env.block.height)
 @ensures C09.receive_inv C10
     r is Ok ==> inv(final(deps.storage).view())
+@ensures C14.receive_notifies_hooks
+    r is Ok ==> exists|amt: Uint128| #[trigger] accepted(config_of(old(deps.storage).view())->Some_0, Balance::Cw20(Cw20CoinVerified { address: info.sender, amount: wrapper.amount }), amt)
+        && membership_msgs_ok(old(deps.storage).view(), r->Ok_0.messages@, wrapper.sender@, weight_u64(stake_of(old(deps.storage).view(), wrapper.sender@) + amt@, config_of(old(deps.storage).view())->Some_0))
 @end
 
 @fn contracts/cw4-stake/src/contract.rs execute_unbond [closures: 1]
@@ -342,6 +348,9 @@ pub proof fn lemma_claims_set(s: Raw, a: Seq<char>, c: Seq<Claim>)
     r is Ok ==> step_unbond(old(deps.storage).view(), final(deps.storage).view(), info.sender@, amount, &env.block)
 @ensures C09.unbond_inv C10
     r is Ok ==> inv(final(deps.storage).view())
+@ensures C14.unbond_notifies_hooks
+    r is Ok ==> membership_msgs_ok(old(deps.storage).view(), r->Ok_0.messages@, info.sender@,
+        weight_u64((stake_of(old(deps.storage).view(), info.sender@) - amount@) as nat, config_of(old(deps.storage).view())->Some_0))
 @closure_types 1
     stake: Option<Uint128>
 @closure 1 C10.unbond_stake_closure
@@ -387,6 +396,16 @@ pub proof fn lemma_claims_set(s: Raw, a: Seq<char>, c: Seq<Claim>)
 @ensures C09.instantiate_inv C10 C14
     r is Ok ==> inv(final(deps.storage).view()) && books(final(deps.storage).view()) == 0
         && config_of(final(deps.storage).view())->Some_0.min_bond.0 >= 1
+@ensures C14.instantiate_admin_as_given
+    r is Ok ==> admin_of(final(deps.storage).view(), "admin"@) is Some
+        && (msg.admin is None ==> admin_of(final(deps.storage).view(), "admin"@)->Some_0 is None)
+        && (msg.admin is Some ==> admin_of(final(deps.storage).view(), "admin"@)->Some_0 is Some && admin_of(final(deps.storage).view(), "admin"@)->Some_0->Some_0@ == msg.admin->Some_0@)
+@ensures C10.instantiate_config_as_given C14
+    r is Ok ==> config_of(final(deps.storage).view()) is Some && config_of(final(deps.storage).view())->Some_0.denom == msg.denom
+        && config_of(final(deps.storage).view())->Some_0.tokens_per_weight == msg.tokens_per_weight
+        && config_of(final(deps.storage).view())->Some_0.unbonding_period == msg.unbonding_period
+        && config_of(final(deps.storage).view())->Some_0.min_bond.0 == (if msg.min_bond.0 >= 1 { msg.min_bond.0 } else { 1 })
+        && hooks_of(final(deps.storage).view(), "cw4-hooks"@).len() == 0
 @prefix
     broadcast use cw4_axioms;
     proof { lemma_ns5(); }
@@ -442,6 +461,18 @@ pub proof fn lemma_same_but5(s: Raw, t: Raw, k: Seq<u8>)
     r is Ok ==> step_msg(old(deps.storage).view(), final(deps.storage).view(), info.sender, info.funds, &env.block, msg)
 @ensures C09.execute_inv C10
     r is Ok ==> inv(final(deps.storage).view())
+@ensures C14.execute_dispatch_msgs C10
+    r is Ok ==> match msg {
+        ExecuteMsg::Bond {} => exists|amt: Uint128| #[trigger] accepted(config_of(old(deps.storage).view())->Some_0, Balance::Native(NativeBalance(info.funds)), amt)
+            && membership_msgs_ok(old(deps.storage).view(), r->Ok_0.messages@, info.sender@, weight_u64(stake_of(old(deps.storage).view(), info.sender@) + amt@, config_of(old(deps.storage).view())->Some_0)),
+        ExecuteMsg::Unbond { tokens } => membership_msgs_ok(old(deps.storage).view(), r->Ok_0.messages@, info.sender@,
+            weight_u64((stake_of(old(deps.storage).view(), info.sender@) - tokens@) as nat, config_of(old(deps.storage).view())->Some_0)),
+        ExecuteMsg::Claim {} => r->Ok_0.messages@.len() == 1 && is_payout(r->Ok_0.messages@[0], config_of(old(deps.storage).view())->Some_0, info.sender@,
+            matured_total(claims_of(old(deps.storage).view(), "claims"@, info.sender@), &env.block)),
+        ExecuteMsg::Receive(w) => exists|amt: Uint128| #[trigger] accepted(config_of(old(deps.storage).view())->Some_0, Balance::Cw20(Cw20CoinVerified { address: info.sender, amount: w.amount }), amt)
+            && membership_msgs_ok(old(deps.storage).view(), r->Ok_0.messages@, w.sender@, weight_u64(stake_of(old(deps.storage).view(), w.sender@) + amt@, config_of(old(deps.storage).view())->Some_0)),
+        _ => r->Ok_0.messages@.len() == 0,
+    }
 @prefix
     broadcast use cw4_axioms;
     proof {
